@@ -39,7 +39,9 @@ RULE = ("one run = one proxy instance in mode regular(CONNECT)/transparent/rever
         "unknown CA, untrusted second root, issuer without CA bit, expired intermediate) and validity (ok, expired, not "
         "yet valid); SNI/address forms: DNS, mixed case, IDN A-label, IPv4, IPv6, SNI != CONNECT host, no SNI; TLS 1.2/1.3 "
         "per side; ClientHello / ServerHello flight cut at seeded offsets (incl. inside the record header) with gaps, "
-        "connect delays 0-0.3 s; 15 % of the runs come from the C18 family (simple certificates, ALPN table). "
+        "connect delays 0-0.3 s; in 14 % of the c15 runs an addon placed before TlsConfig overrides the upstream SNI in "
+        "server_connect / tls_start_server (opt-out \"\", empty label, 64-octet label, NUL byte, > 255 octets, another "
+        "DNS name): most of these make TlsConfig.tls_start_server raise half-way (fault inside the hook); 15 % of the runs come from the C18 family (simple certificates, ALPN table). "
         "non-trivial = at least one upstream handshake was attempted and judged; distinct = abstract event-log digests")
 COMPONENTS_REAL = ["mitmproxy.master.Master + default addon set (TlsConfig, NextLayer, Proxyserver, Core, ...)",
                    "mitmproxy.addons.tlsconfig.TlsConfig.tls_start_server / tls_start_client",
@@ -58,7 +60,11 @@ COMPONENTS_STUB = ["TCP: simkit.net.SimNet (reliable ordered pipes, seeded segme
                    "PEM file with the public sim roots P and Q for the duration of a run (same path string in every run; "
                    "the lru_cache of create_proxy_server_context is cleared at world start and after the run)"]
 ASSUMPTIONS = ["the identity to verify is the SNI mitmproxy sends to the origin, or the server address when no SNI is sent",
-               "'a configured trusted CA' = the roots in ssl_verify_upstream_trusted_ca and/or "
+               "when an addon set the server connection's SNI, that value is 'the server's SNI'; a value no certificate "
+               "can name (not an IP address, not a host name of 1..63-octet LDH labels within 253 octets) is matched by "
+               "no certificate; with the SNI opted out (\"\") and verification on mitmproxy may refuse the connection "
+               "even if the certificate names the address ('only if'), so service is not demanded there",
+               "'a configured trusted CA' =the roots in ssl_verify_upstream_trusted_ca and/or "
                "ssl_verify_upstream_trusted_confdir when at least one of them is set (they are then the ONLY anchors); "
                "the default bundle is the anchor set only when neither is set (option help texts)",
                "a wildcard is acceptable only as the complete left-most label standing for exactly one label, with at "
@@ -83,11 +89,39 @@ EXPECTED_PROBES = ["verdict_good", "verdict_bad", "rejected_name_mismatch", "rej
                    "private_root_rejected_default_bundle", "mode_regular", "mode_transparent", "mode_reverse_https",
                    "mode_reverse_tls", "mode_swp", "identity_ip", "identity_dns", "lazy", "eager", "tls12_origin",
                    "case_wildcard", "case_partial_prefix", "case_cn_only", "case_ip_match", "case_ip_as_dns",
-                   "hello_segmented"]
+                   "hello_segmented", "snifault_optout", "snifault_empty_label", "snifault_long_label", "snifault_nul",
+                   "snifault_overlong", "snifault_other_dns", "snifault_in_server_connect",
+                   "snifault_in_tls_start_server", "snifault_effective", "snifault_judged_verify_on",
+                   "snifault_nothing_sent_upstream", "rejected_unnameable_sni"]
+
+
+# An addon placed BEFORE TlsConfig overrides the upstream SNI (in server_connect or in tls_start_server).  Some of
+# these names make TlsConfig.tls_start_server raise half-way (fault inside the hook): SNI opted out while
+# verification is on, names IDNA cannot encode, names OpenSSL refuses.  Whatever happens inside the hook, a
+# handshake may only complete with a certificate that names the SNI the server connection carries.
+SNI_FAULT_KINDS = {
+    "optout": "",                                              # "do not send SNI"
+    "empty_label": "www..example.com",                         # IDNA: empty label
+    "long_label": "w" * 64 + ".example.com",                   # IDNA: label longer than 63 octets
+    "nul": "www.example.com\x00.evil.test",                    # refused by set_tlsext_host_name
+    "overlong": ".".join(["a" * 60] * 5) + ".example.com",     # > 255 octets
+    "other_dns": "override.example.info",                      # an ordinary different name (no fault in the hook)
+}
 
 
 def generate(rng, tier):
-    return G.gen_mix(rng, tier, "c15", 0.85, others=["c18"])
+    sc = G.gen_mix(rng, tier, "c15", 0.85, others=["c18"])
+    if sc.get("family") == "c15":
+        r = rng.at("c15-snifault")
+        if r.random() < 0.14:
+            o = sc["origins"][r.randrange(len(sc["origins"]))]
+            kind = r.choices(list(SNI_FAULT_KINDS), [30, 18, 18, 12, 8, 14])[0]
+            if sc["opts"].get("ssl_insecure"):
+                # the statement promises success under ssl_insecure only for names a handshake can be started for
+                kind = r.choice(["optout", "other_dns"])
+            o["sni_fault"] = {"hook": r.choice(["tls_start_server", "tls_start_server", "server_connect"]),
+                              "sni": SNI_FAULT_KINDS[kind], "kind": kind}
+    return sc
 
 
 def _norm_err(e):
@@ -100,6 +134,36 @@ def _norm_err(e):
         if k in e:
             return k
     return e[:60]
+
+
+def _nameable(s: str) -> bool:
+    """Can a certificate name ``s`` at all (IP address, or a host name of 1..63-octet LDH labels, <= 253 octets)?"""
+    if G.is_ip(s):
+        return True
+    if not s or len(s) > 253:
+        return False
+    labels = s[:-1].split(".") if s.endswith(".") else s.split(".")
+    ok = set("abcdefghijklmnopqrstuvwxyzABCDEFGHIJKLMNOPQRSTUVWXYZ0123456789-_")
+    return all(1 <= len(lb) <= 63 and set(lb) <= ok for lb in labels)
+
+
+def _flow_crash(obs, i, injected_hook_fault):
+    """tls_a.flow_crash, except that for a flow with an injected SNI fault the 'Addon error' the addon manager logs
+    for the raising tls_start_server hook is the fault itself, not a crash of the proxy."""
+    if not injected_hook_fault:
+        return tls_a.flow_crash(obs, i)
+    lst = obs.flow_crashes.get(i)
+    if not lst and len(obs.flows) == 1:
+        lst = obs.flow_crashes.get(None)
+    lst = [x for x in (lst or []) if not x["msg"].startswith("Addon error")]
+    if lst:
+        return lst[0]
+    if len(obs.flows) == 1:
+        for t, msg, tb in obs.world.crashes:
+            if not str(msg).startswith("Addon error"):
+                return {"where": tb.split(" @ ")[-1] if " @ " in tb else msg[:60], "exc": tb.split(":")[0],
+                        "msg": f"t={t:.6f} {msg} {tb}"}
+    return None
 
 
 def check(sc, obs):
@@ -137,21 +201,45 @@ def check(sc, obs):
             probes["tls12_origin"] += 1
         flow_good = None
         flow_reason = None
+        # an earlier addon replaced the upstream SNI: the server connection's SNI (as the last addon saw it at the
+        # end of tls_start_server) is the name to verify, whatever went wrong inside the hook afterwards
+        sf = org.get("sni_fault") if sc.get("family") == "c15" else None
+        sf_on = bool(sf) and any(n == "tls_start_server" and d and d.get("sni") == sf["sni"]
+                                 for n, d in obs.hooks.get(i, []))
+        if sf:
+            probes["snifault_" + sf["kind"]] += 1
+            probes["snifault_in_" + sf["hook"]] += 1
+            probes["snifault_effective" if sf_on else "snifault_not_effective"] += 1
+        sf_verify = sf_on and not insecure
+        may_refuse = sf_verify and sf["sni"] == ""      # "only if": refusing to go on without a name is allowed
         for c in conns:
             if c["hs"] is None and not c["timeout"]:
                 continue  # run ended while this handshake was still in flight (client gone) — inconclusive
             ident = c["sni"] or c["host"]
-            good, reason = pki_a.verdict(org["cert"], ident, obs.trusted)
+            if sf_verify and sf["sni"]:
+                ident = sf["sni"]
+            if sf_verify and not _nameable(ident):
+                good, reason = False, "unnameable_sni"      # no certificate names this
+                id_kind = "dns"
+            else:
+                good, reason = pki_a.verdict(org["cert"], ident, obs.trusted)
+                id_kind = pki_a.identity_of(ident)[0]
+            if sf_verify:
+                probes["snifault_judged_verify_on"] += 1
+                if not c["hs"] and not c["sni"] and c["timeout"]:
+                    probes["snifault_nothing_sent_upstream"] += 1
             judged += 1
             probes["verdict_good" if good else "verdict_bad"] += 1
-            probes["identity_" + pki_a.identity_of(ident)[0]] += 1
+            probes["identity_" + id_kind] += 1
             if tag.get("name_case"):
                 probes["case_" + tag["name_case"]] += 1
             if flow_good is None:
                 flow_good, flow_reason = good, reason
             # the verdict's reason identifies the failure mode; the name case matters only for name mismatches
-            key = {"reason": reason, "id": pki_a.identity_of(ident)[0],
+            key = {"reason": reason, "id": id_kind,
                    "name_case": tag.get("name_case", "?") if reason == "name_mismatch" else "-"}
+            if sf_verify:
+                key["sni_set_by_addon"] = sf["kind"]
             chain_kind = org["cert"].get("chain", "root")
             root = "X" if chain_kind == "unknown_ca" else org["cert"].get("root", "A")
             root_class = ("self_signed" if chain_kind == "self_signed" else
@@ -191,8 +279,8 @@ def check(sc, obs):
                     probes["good_accepted"] += 1
                     if root_class == "public_default_bundle" and trust == "default" and c["hs"]:
                         probes["public_root_accepted_default_bundle"] += 1
-                if not c["hs"] and not c["timeout"]:
-                    errs = [_norm_err(d.get("error")) for n, d in obs.hooks.get(i, []) if n == "tls_failed_server"]
+                if not c["hs"] and not c["timeout"] and not may_refuse:
+                    errs =[_norm_err(d.get("error")) for n, d in obs.hooks.get(i, []) if n == "tls_failed_server"]
                     viol.append({"class": "handshake_failed_acceptable_cert",
                                  "key": {"insecure": insecure, "verdict": reason, "name_case": tag.get("name_case", "?"),
                                          "chain": org["cert"].get("chain", "root"), "proxy_error": (errs or ["none"])[0]},
@@ -204,7 +292,10 @@ def check(sc, obs):
             probes["flow_not_evaluated"] += 1
             continue
         expect_fail = (not flow_good) and not insecure
-        fcrash = tls_a.flow_crash(obs, i)
+        if may_refuse and flow_good and "tls_established_server" not in names:
+            probes["snifault_refused_without_name"] += 1
+            continue        # acceptable for the address, but mitmproxy may refuse to verify without SNI
+        fcrash = _flow_crash(obs, i, sf_verify)
         if fcrash is not None:
             if expect_fail and not crash_in_rejection_path:
                 # a crash of the proxy while it handles a rejected upstream chain is not "the connection
@@ -234,10 +325,15 @@ def check(sc, obs):
                     missing.append("client_left_hanging")
                 elif rec["reply"]:
                     missing.append("client_got_data")
+            if sf_verify:
+                probes["snifault_flow_expected_to_fail"] += 1
             if missing:
+                nkey = {"mode": mode, "strategy": strategy, "missing": ",".join(missing),
+                        "eager_task_factory": bool(sc.get("eager_tasks"))}
+                if sf_verify:
+                    nkey["sni_set_by_addon"] = sf["kind"]
                 viol.append({"class": "no_error_outcome",
-                             "key": {"mode": mode, "strategy": strategy, "missing": ",".join(missing),
-                                     "eager_task_factory": bool(sc.get("eager_tasks"))},
+                             "key": nkey,
                              "msg": f"flow {i}: upstream chain rejected ({flow_reason}) but {missing}; hooks={names}, "
                                     f"client status={rec['status']} reply={rec['reply']!r} timeout={rec['timeout']}"})
         else:
